@@ -66,7 +66,7 @@ fields(CMD + "SetStateCommand", beep_on="bool", power_on="bool", target_temperat
 G = {CMD + "Command._message_id": "int"}
 
 contract(CMD + "Command._next_message_id",
-         params={"self": "obj:" + CMD + "Command"}, globals=G,
+         params={"self": "sub:" + CMD + "Command"}, globals=G,
          returns="next_id(old(Command._message_id))",
          assigns={"Command._message_id": "old(Command._message_id) + 1"})
 
@@ -76,7 +76,7 @@ lemma("C12.ids_advance_by_one",
                "range": "0 <= next_id(m) <= 255"})
 
 contract(CMD + "Command.tobytes",
-         params={"self": "obj:" + CMD + "Command", "data": "bytes"}, globals=G,
+         params={"self": "sub:" + CMD + "Command", "data": "bytes"}, globals=G,
          requires=["len(data) <= 243", "self._device_type == 0xAC", "self._protocol_version == 0",
                    "0 <= self._frame_type <= 255"],
          returns="cmd_frame(self._frame_type, data, next_id(old(Command._message_id)))",
